@@ -11,6 +11,7 @@ import (
 	"github.com/ipld/go-ipld-prime/codec/dagjson"
 	"github.com/ipld/go-ipld-prime/datamodel"
 
+	"github.com/ucan-wg/go-ucan/internal/stream"
 	"github.com/ucan-wg/go-ucan/token/delegation"
 	"github.com/ucan-wg/go-ucan/token/internal/envelope"
 	"github.com/ucan-wg/go-ucan/token/invocation"
@@ -81,7 +82,7 @@ func Decode(b []byte, decFn codec.Decoder) (Token, error) {
 
 // DecodeReader is the same as Decode, but accept an io.Reader.
 func DecodeReader(r io.Reader, decFn codec.Decoder) (Token, error) {
-	node, err := ipld.DecodeStreaming(r, decFn)
+	node, err := ipld.DecodeStreaming(stream.Progress(r), decFn)
 	if err != nil {
 		return nil, err
 	}
